@@ -314,12 +314,28 @@ floating_point_number = (
 # Basic arithmetic operations
 plus, minus, mult, div = map(pp.Literal, "+-*/")
 
+def _fold_arithmetic(tokens: pp.ParseResults) -> float:
+    # a left-associative chain arrives as [operand, operator, operand, operator, operand, ...]
+    chain = tokens[0]
+    result = chain[0]
+    for operator, operand in zip(chain[1::2], chain[2::2]):
+        if operator == "*":
+            result = result * operand
+        elif operator == "/":
+            result = result / operand
+        elif operator == "+":
+            result = result + operand
+        else:
+            result = result - operand
+    return result
+
+
 # Using infixNotation to manage precedence of operations
 arithmetic_expr = pp.infixNotation(
     floating_point_number,
     [
-        (mult | div, 2, pp.opAssoc.LEFT, lambda s, l, t: t[0][0] * t[0][2] if t[0][1] == "*" else t[0][0] / t[0][2]),
-        (plus | minus, 2, pp.opAssoc.LEFT, lambda s, l, t: t[0][0] + t[0][2] if t[0][1] == "+" else t[0][0] - t[0][2]),
+        (mult | div, 2, pp.opAssoc.LEFT, _fold_arithmetic),
+        (plus | minus, 2, pp.opAssoc.LEFT, _fold_arithmetic),
     ],
 )
 
